@@ -106,6 +106,12 @@ def witness_crate(d: Decl, extra_inputs=()):
             body.append('        { let r: &str = v.borrow(); report("Borrow<str>", label, setting, format!("{:?}", r), inner.clone(), n); }\n')
     if 'Into' in d.derives and ('Clone' in d.derives or copyish and 'Copy' in d.derives):
         body.append('        { let r: %s = v.clone().into(); report("Into", label, setting, format!("{:?}", r), inner.clone(), n); }\n' % I)
+    if 'Clone' in d.derives or (copyish and 'Copy' in d.derives) or True:
+        # canonical form (C11): re-entering the constructor with the stored value reproduces it
+        if has_v:
+            body.append('        { let i2 = %s::try_new(x.clone()).ok().unwrap().into_inner(); report("canonical", label, setting, format!("{:?}", %s::try_new(i2.clone()).map(|w| w.into_inner())), format!("Ok({:?})", i2), n); }\n' % (S, S))
+        else:
+            body.append('        { let i2 = %s::new(x.clone()).into_inner(); report("canonical", label, setting, format!("{:?}", %s::new(i2.clone()).into_inner()), format!("{:?}", i2), n); }\n' % (S, S))
     body.append('        report("into_inner", label, setting, format!("{:?}", v.into_inner()), inner.clone(), n);\n')
     body.append('    }\n}\n')
     out.extend(body)
